@@ -37,14 +37,7 @@ STR_OPS = {'lower', 'upper', 'strip', 'split', 'startswith', 'endswith', 'encode
 
 
 def check(run, ctx):
-    r1(run, ctx)
-    r2(run, ctx)
-    r3(run, ctx)
-    r4(run, ctx)
-    r5(run, ctx)
-    r6(run, ctx)
-    r7(run, ctx)
-    r8(run, ctx)
+    run.each(ctx, [r1, r2, r3, r4, r5, r6, r7, r8])
 
 
 # -- R1 -----------------------------------------------------------------------
